@@ -173,6 +173,8 @@ enum Call {
     LockFee(Decimal),
     WithdrawFee(Decimal),
     Contribute(Decimal),
+    /// direct attack on the rule storage: role-assignment `set` on the controller for one of its roles
+    DirectSetRole(usize, usize),
 }
 
 impl Call {
@@ -199,6 +201,7 @@ impl Call {
             Call::LockFee(_) => ACCESS_CONTROLLER_LOCK_RECOVERY_FEE_IDENT,
             Call::WithdrawFee(_) => ACCESS_CONTROLLER_WITHDRAW_RECOVERY_FEE_IDENT,
             Call::Contribute(_) => ACCESS_CONTROLLER_CONTRIBUTE_RECOVERY_FEE_IDENT,
+            Call::DirectSetRole(..) => "role_assignment:set",
         }
     }
 }
@@ -337,6 +340,7 @@ fn judge(c: &Ctl, call: &Call, roles: [bool; 3], clock: &ConsensusClock) -> Judg
             return if reasons.is_empty() { Judge::Unpredicted } else { Judge::Refuse { reason: reasons[0].0, safety: false } };
         }
         Call::LockFee(_) | Call::WithdrawFee(_) | Call::Contribute(_) => return Judge::Unpredicted,
+        Call::DirectSetRole(..) => reasons.push(("rule-replaced-by-direct-role-assignment-call", true)),
     }
     if let Some((reason, _)) = reasons.iter().find(|(_, s)| *s) {
         return Judge::Refuse { reason, safety: true };
@@ -666,6 +670,7 @@ fn gen_call(rng: &mut Rng, env: &mut Env, c: &Ctl) -> Call {
         (18, 1),
         (19, 1),
         (20, 1),
+        (21, 2),
     ];
     if c.locked {
         w[0].1 = 14;
@@ -704,6 +709,7 @@ fn gen_call(rng: &mut Rng, env: &mut Env, c: &Ctl) -> Call {
         }
         18 => Call::LockFee(*rng.pick(&[dec!(5), dec!(10), dec!(100000), dec!(0)])),
         19 => Call::WithdrawFee(*rng.pick(&[dec!(1), dec!(5), dec!(1000)])),
+        21 => Call::DirectSetRole(rng.usize_below(3), rng.usize_below(env.pool.len())),
         _ => Call::Contribute(*rng.pick(&[dec!(10), dec!(25), dec!(1)])),
     }
 }
@@ -719,7 +725,7 @@ fn natural_roles(rng: &mut Rng, call: &Call) -> Vec<usize> {
             vec![*rng.pick(&others)]
         }
         Call::Timed(_) | Call::Lock | Call::Unlock => vec![R],
-        Call::Stop(_) | Call::LockFee(_) => vec![rng.usize_below(3)],
+        Call::Stop(_) | Call::LockFee(_) | Call::DirectSetRole(..) => vec![rng.usize_below(3)],
         Call::Mint(_) => vec![if rng.bool() { P } else { R }],
         Call::Contribute(_) => vec![],
     }
@@ -727,7 +733,7 @@ fn natural_roles(rng: &mut Rng, call: &Call) -> Vec<usize> {
 
 fn gen_presented(rng: &mut Rng, c: &Ctl, calls: &[Call]) -> (BTreeSet<usize>, &'static str) {
     let mut set = BTreeSet::new();
-    let mut hold = |rng: &mut Rng, set: &mut BTreeSet<usize>, role: usize| {
+    let hold = |rng: &mut Rng, set: &mut BTreeSet<usize>, role: usize| {
         for b in c.cur.0[role].badges_to_hold(rng) {
             set.insert(b);
         }
@@ -852,6 +858,11 @@ fn build_manifest(rng: &mut Rng, env: &Env, c: &Ctl, presented: &BTreeSet<usize>
                 returns_buckets = true;
                 mb.call_method(c.addr, ident, AccessControllerWithdrawRecoveryFeeInput { amount: *a })
             }
+            Call::DirectSetRole(role, rs) => {
+                let rules = &env.pool_actual[*rs];
+                let rule = [&rules.primary_role, &rules.recovery_role, &rules.confirmation_role][*role].clone();
+                mb.set_role(c.addr, ModuleId::Main, RoleKey::new(ROLE_NAMES[*role]), rule)
+            }
             Call::Contribute(a) => {
                 let name = format!("fee_bucket_{k}");
                 mb.withdraw_from_account(env.account, XRD, *a)
@@ -871,6 +882,7 @@ fn describe_call(call: &Call) -> String {
         Call::InitRec(p, x) | Call::QuickRec(p, x) => format!("{}(proposer={}, rule_set=#{}, delay={:?})", call.ident(), ROLE_NAMES[*p], x.rs, x.delay),
         Call::Timed(x) | Call::Stop(x) => format!("{}(rule_set=#{}, delay={:?})", call.ident(), x.rs, x.delay),
         Call::Mint(id) => format!("{}(#{id}#)", call.ident()),
+        Call::DirectSetRole(role, rs) => format!("{}({} := {} rule of rule_set #{rs})", call.ident(), ROLE_NAMES[*role], ROLE_NAMES[*role]),
         Call::LockFee(a) | Call::WithdrawFee(a) | Call::Contribute(a) => format!("{}({a})", call.ident()),
         _ => format!("{}()", call.ident()),
     }
@@ -890,6 +902,7 @@ fn roles_str(roles: [bool; 3]) -> String {
 // ------------------------------------------------------------------------------------------
 struct Ctx<'a> {
     shard_index: usize,
+    ledger_no: u64,
     tx_no: u64,
     env: &'a mut Env,
 }
@@ -907,7 +920,11 @@ fn controller_tx(ledger: &mut Ledger, shard: &mut Shard, rng: &mut Rng, cx: &mut
     let mut create_proof_under_lock = false;
     for call in &calls {
         let roles = sim.cur.roles_of(&presented);
-        let j = judge(&sim, call, roles, &clock);
+        let mut j = judge(&sim, call, roles, &clock);
+        if j == Judge::Ok && matches!(call, Call::QuickWd(_)) && calls.iter().take(judged.len()).any(|c| matches!(c, Call::CreateProof)) {
+            // a proof created earlier in the transaction still locks the asset in the vault
+            j = Judge::Unpredicted;
+        }
         if matches!(call, Call::CreateProof) && sim.locked {
             create_proof_under_lock = true;
         }
@@ -935,11 +952,11 @@ fn controller_tx(ledger: &mut Ledger, shard: &mut Shard, rng: &mut Rng, cx: &mut
         calls.iter().zip(&judged).map(|(c, (j, roles, _))| format!("{} as {} (model: {})", describe_call(c), roles_str(*roles), match j { Judge::Ok => "allowed".to_string(), Judge::Unpredicted => "unpredicted".to_string(), Judge::Refuse { reason, .. } => format!("refuse:{reason}") })).collect::<Vec<_>>().join("; "),
         cls
     );
-    let (shard_index, tx_no, ledger_kind, code_version) = (cx.shard_index, cx.tx_no, cx.env.kind, cx.env.code_version());
+    let (shard_index, ledger_no, tx_no, ledger_kind, code_version) = (cx.shard_index, cx.ledger_no, cx.tx_no, cx.env.kind, cx.env.code_version());
     let pool_text: Vec<String> = cx.env.pool.iter().map(|p| format!("{p:?}")).collect();
     let detail = |extra: Value, c: &Ctl| -> Value {
         json!({
-            "replay": {"shard": shard_index, "tx_no": tx_no},
+            "replay": {"shard": shard_index, "ledger": ledger_no, "tx_no": tx_no},
             "ledger_kind": ledger_kind, "controller_code": code_version,
             "clock": {"minute": clock.minute, "milli": clock.milli, "epoch": clock.epoch, "round": clock.round},
             "transaction": line, "manifest": manifest_text,
@@ -1011,6 +1028,7 @@ fn controller_tx(ledger: &mut Ledger, shard: &mut Shard, rng: &mut Rng, cx: &mut
             Some(i) => {
                 if let Judge::Refuse { reason, .. } = &judged[i].0 {
                     let is_confirm = matches!(calls[i], Call::QuickRec(..) | Call::QuickWd(_) | Call::Timed(_));
+                    let reason = if *reason == "create_proof-succeeded-while-primary-role-locked" { "create_proof-while-primary-role-locked" } else { reason };
                     shard.count(&format!("c40:{}:{reason}", if is_confirm { "refused_confirms" } else { "refused_other" }));
                 }
             }
@@ -1048,7 +1066,7 @@ fn observe_all(ledger: &Ledger, shard: &mut Shard, cx: &Ctx<'_>, ctls: &mut Vec<
         let mk = |extra: Value, c: &Ctl| -> Value {
             match &here {
                 Some((_, _, d)) => d(extra, c),
-                None => json!({"replay": {"shard": cx.shard_index, "tx_no": cx.tx_no}, "ledger_kind": cx.env.kind, "controller": c.describe(), "observed": extra, "note": "changed by a transaction that did not call this controller", "recent_history_of_controller": c.history.iter().collect::<Vec<_>>()}),
+                None => json!({"replay": {"shard": cx.shard_index, "ledger": cx.ledger_no, "tx_no": cx.tx_no}, "ledger_kind": cx.env.kind, "controller": c.describe(), "observed": extra, "note": "changed by a transaction that did not call this controller", "recent_history_of_controller": c.history.iter().collect::<Vec<_>>()}),
             }
         };
         let Some(stored) = read_roles(db, &ctls[i].addr) else {
@@ -1139,21 +1157,39 @@ fn advance_time(ledger: &mut Ledger, shard: &mut Shard, rng: &mut Rng, ctls: &[C
 // ------------------------------------------------------------------------------------------
 #[derive(Clone, Debug)]
 struct Params {
+    seed: u64,
+    ledgers_per_shard: u64,
     steps: u64,
     live_controllers: usize,
     calls_per_controller: u64,
 }
 
-fn ledger_kind(shard_index: usize) -> &'static str {
-    match shard_index % 8 {
+fn params(args: &Args, tier: Tier) -> Params {
+    Params { seed: args.seed, ledgers_per_shard: tier.pick(2, 400), steps: scaled(args, 3000), live_controllers: 3, calls_per_controller: 40 }
+}
+
+fn ledger_kind(shard_index: usize, ledger_no: u64) -> &'static str {
+    match (shard_index as u64 + 3 * ledger_no) % 8 {
         3 => "anemone",
         1 | 6 => "anemone-upgraded-mid-history",
         _ => "latest",
     }
 }
 
-fn run_shard(i: usize, rng: &mut Rng, shard: &mut Shard, p: &Params, stop_after: Option<u64>) {
-    let kind = ledger_kind(i);
+fn run_shard(i: usize, shard: &mut Shard, p: &Params) {
+    for l in 0..p.ledgers_per_shard {
+        if shard.time_up() {
+            break;
+        }
+        run_ledger(i, l, shard, p, None);
+    }
+}
+
+/// One ledger history. Its randomness depends only on (seed, ledger number, shard index), so a
+/// recorded violation can be replayed from these coordinates plus the transaction number.
+fn run_ledger(i: usize, l: u64, shard: &mut Shard, p: &Params, stop_after: Option<u64>) {
+    let rng = &mut Rng::from_parts(p.seed, 40_000 + l, i as u64);
+    let kind = ledger_kind(i, l);
     shard.seen("c40:ledger_kinds", kind);
     let mut ledger = new_ledger(kind);
     ledger.walk_every = 1500;
@@ -1189,7 +1225,7 @@ fn run_shard(i: usize, rng: &mut Rng, shard: &mut Shard, p: &Params, stop_after:
             env.upgraded = true;
             shard.count("c40:protocol_upgrades_mid_history");
             shard.add("c40:controllers_carried_over_protocol_upgrade", ctls.len() as u64);
-            let cx = Ctx { shard_index: i, tx_no, env: &mut env };
+            let cx = Ctx { shard_index: i, ledger_no: l, tx_no, env: &mut env };
             observe_all(&ledger, shard, &cx, &mut ctls, None);
         }
         // retire finished controllers, keep the population up
@@ -1207,12 +1243,12 @@ fn run_shard(i: usize, rng: &mut Rng, shard: &mut Shard, p: &Params, stop_after:
         match rng.below(20) {
             0..=3 => {
                 advance_time(&mut ledger, shard, rng, &ctls);
-                let cx = Ctx { shard_index: i, tx_no, env: &mut env };
+                let cx = Ctx { shard_index: i, ledger_no: l, tx_no, env: &mut env };
                 observe_all(&ledger, shard, &cx, &mut ctls, None);
             }
             _ => {
                 let k = rng.usize_below(ctls.len());
-                let mut cx = Ctx { shard_index: i, tx_no, env: &mut env };
+                let mut cx = Ctx { shard_index: i, ledger_no: l, tx_no, env: &mut env };
                 controller_tx(&mut ledger, shard, rng, &mut cx, &mut ctls, k);
             }
         }
@@ -1221,6 +1257,7 @@ fn run_shard(i: usize, rng: &mut Rng, shard: &mut Shard, p: &Params, stop_after:
         rv_ledger::walkers::walk_all(shard, &ledger, "end of C40 history");
     }
     shard.count("c40:histories");
+    shard.max("c40:transactions_in_one_history", tx_no);
 }
 
 fn spec(args: &Args) -> Spec {
@@ -1228,7 +1265,7 @@ fn spec(args: &Args) -> Spec {
     Spec::new(
         "C40",
         "exploration",
-        "per shard one ledger (latest protocol = v2 controller code; Anemone = v1 code; Anemone upgraded to latest mid-history = v1-created state driven by v2 code) with 3 live access controllers at a time over fungible / non-fungible controlled assets, each driven for ~40 calls: every method (create_proof, initiate/cancel/quick-confirm recovery and badge withdraw for both proposers, timed_confirm_recovery, stop_timed_recovery, lock/unlock primary, mint_recovery_badges, lock/withdraw/contribute recovery fee) called with the natural role, one/two/all roles, the proposer's own role, no badge, a foreign badge or a random subset of 6 role badges; proposals from a pool of 4 rule sets x 3 delays so equal / near-miss / other-proposer contents collide; 1-3 calls per transaction; consensus time advanced by real round changes to the last ms before / exactly at / into / past the timed-recovery threshold; non-trivial = a controller call; distinct = distinct (method, roles held by caller, controller state, model verdict, outcome)",
+        "per shard 2 (quick) / as many as fit the time budget (thorough) ledger histories of 3000 transactions each (latest protocol = v2 controller code; Anemone = v1 code; Anemone upgraded to latest mid-history = v1-created state driven by v2 code) with 3 live access controllers at a time over fungible / non-fungible controlled assets, each driven for ~40 calls: every method (create_proof, initiate/cancel/quick-confirm recovery and badge withdraw for both proposers, timed_confirm_recovery, stop_timed_recovery, lock/unlock primary, mint_recovery_badges, lock/withdraw/contribute recovery fee, plus direct role-assignment `set` calls on the controller) called with the natural role, one/two/all roles, the proposer's own role, no badge, a foreign badge or a random subset of 6 role badges; proposals from a pool of 4 rule sets x 3 delays so equal / near-miss / other-proposer contents collide; 1-3 calls per transaction; consensus time advanced by real round changes to the last ms before / exactly at / into / past the timed-recovery threshold; non-trivial = a controller call; distinct = distinct (method, roles held by caller, controller state, model verdict, outcome)",
     )
     .assume("\"the configured delay has elapsed\" is evaluated at the minute resolution of the consensus clock used by the controller: confirm minute >= proposal minute + delay (confirmations inside the rounding slack are counted separately)")
     .assume("timed_confirm_recovery is publicly callable in the code under test (v1 and v2 auth templates): the monitor requires the recovery role's own, still timed, identical proposal and the elapsed delay, and counts - but does not flag - effective timed confirmations by callers not holding the recovery role")
@@ -1244,6 +1281,8 @@ fn spec(args: &Args) -> Spec {
     .floor("c40:refused_confirms:timed-confirm-before-configured-delay-elapsed", if q { 30 } else { 300 })
     .floor("c40:refused_confirms:timed-confirm-of-recovery-without-running-timer", if q { 10 } else { 100 })
     .floor("c40:create_proof_attempts_while_locked", if q { 50 } else { 500 })
+    .floor("c40:refused_other:create_proof-while-primary-role-locked", if q { 30 } else { 300 })
+    .floor("c40:refused_other:rule-replaced-by-direct-role-assignment-call", if q { 20 } else { 200 })
     .floor("c40:time_advances_crossing_a_delay", if q { 30 } else { 300 })
     .floor("c40:stored_rule_sets_compared", if q { 10_000 } else { 100_000 })
     .floor("c40:controllers_created", if q { 100 } else { 1000 })
@@ -1251,35 +1290,32 @@ fn spec(args: &Args) -> Spec {
 
 pub fn run(args: &Args) -> i32 {
     let mut report = Report::new(args, spec(args));
-    let params = Params { steps: scaled(args, args.tier.pick(2500, 60_000)), live_controllers: 3, calls_per_controller: 40 };
     if let Some(path) = &args.replay {
-        return replay(args, path, report, &params);
+        return replay(args, path, report);
     }
+    let p = params(args, args.tier);
     let budget = Duration::from_secs(budget_secs(args.tier, 60, 900));
-    report.run_shards(40, args.threads, budget, |i, rng, shard| run_shard(i, rng, shard, &params, None));
+    report.run_shards(40, args.threads, budget, |i, _rng, shard| run_shard(i, shard, &p));
     report.finish()
 }
 
-/// Re-runs the recorded shard history (same seed, same tier) up to and including the recorded
-/// transaction and reports whether the same violation class shows up again.
-fn replay(args: &Args, path: &std::path::Path, mut report: Report, params: &Params) -> i32 {
+/// Re-runs the recorded ledger history (same seed, shard and ledger number) up to and including
+/// the recorded transaction and reports whether the same violation class shows up again.
+fn replay(args: &Args, path: &std::path::Path, mut report: Report) -> i32 {
     let doc: Value = serde_json::from_str(&std::fs::read_to_string(path).expect("replay file")).expect("json");
-    let (Some(shard_index), Some(tx_no)) = (doc["detail"]["replay"]["shard"].as_u64(), doc["detail"]["replay"]["tx_no"].as_u64()) else {
-        println!("replay file carries no (shard, tx_no) coordinates: {}", doc["detail"]);
+    let c = &doc["detail"]["replay"];
+    let (Some(shard_index), Some(ledger_no), Some(tx_no)) = (c["shard"].as_u64(), c["ledger"].as_u64(), c["tx_no"].as_u64()) else {
+        println!("replay file carries no (shard, ledger, tx_no) coordinates: {}", doc["detail"]);
         return 2;
     };
-    let seed = doc["seed"].as_i64().map(|s| s as u64).unwrap_or(args.seed);
     let tier = if doc["tier"].as_str() == Some("thorough") { Tier::Thorough } else { Tier::Quick };
-    let mut p = params.clone();
-    if tier != args.tier {
-        p.steps = scaled(args, tier.pick(2500, 60_000));
-    }
+    let mut p = params(args, tier);
+    p.seed = doc["seed"].as_i64().map(|s| s as u64).unwrap_or(args.seed);
     let signature = doc["signature"].as_str().unwrap_or("").to_string();
-    let mut rng = Rng::from_parts(seed, 40, shard_index);
     let mut shard = Shard::new(shard_index as usize, "C40", tier, std::time::Instant::now() + Duration::from_secs(3600));
-    run_shard(shard_index as usize, &mut rng, &mut shard, &p, Some(tx_no));
+    run_ledger(shard_index as usize, ledger_no, &mut shard, &p, Some(tx_no));
     let again = shard.violations.iter().filter(|v| v.signature == signature).count();
-    println!("replayed shard {shard_index} of seed {seed} ({}) up to transaction {tx_no}: {} violation(s), {} with the recorded signature {signature}", tier.name(), shard.violations.len(), again);
+    println!("replayed ledger {ledger_no} of shard {shard_index}, seed {} up to transaction {tx_no}: {} violation(s), {} with the recorded signature {signature}", p.seed, shard.violations.len(), again);
     for v in &shard.violations {
         println!("  {} {}", v.signature, v.detail["transaction"]);
     }
